@@ -158,3 +158,48 @@ def render(node):
     if typ == BYTE_STRING:
         return ["%06x" % tag, "b:" + value.hex()]
     return ["%06x" % tag, TYPE_NAMES[typ][0:3] + ":" + str(value)]
+
+
+def index(buf):
+    """Flat list of the items of a (well-formed) encoding with byte offsets:
+    dict(path, start, value_start, value_end, end, tag, type, length)."""
+    out = []
+
+    def rec(pos, end, path):
+        i = 0
+        while pos < end:
+            tag = int.from_bytes(buf[pos:pos + 3], 'big')
+            typ = buf[pos + 3]
+            length = int.from_bytes(buf[pos + 4:pos + 8], 'big')
+            vs = pos + 8
+            ve = vs + length
+            pe = ve + _pad(length)
+            out.append({'path': path + (i,), 'start': pos, 'value_start': vs, 'value_end': ve,
+                        'end': pe, 'tag': tag, 'type': typ, 'length': length})
+            if typ == STRUCTURE:
+                rec(vs, ve, path + (i,))
+            pos = pe
+            i += 1
+    rec(0, len(buf), ())
+    return out
+
+
+def get_path(tree, path):
+    node = (None, STRUCTURE, [tree])
+    for i in path:
+        node = node[2][i]
+    return node
+
+
+def replace_path(tree, path, new_nodes):
+    """Return a copy of tree with the node at path replaced by the list new_nodes (may be empty)."""
+    def rec(node, p):
+        if not p:
+            raise ValueError
+        tag, typ, kids = node
+        i = p[0]
+        if len(p) == 1:
+            return (tag, typ, kids[:i] + list(new_nodes) + kids[i + 1:])
+        return (tag, typ, kids[:i] + [rec(kids[i], p[1:])] + kids[i + 1:])
+    top = rec((None, STRUCTURE, [tree]), path)
+    return top[2]
